@@ -746,7 +746,7 @@ class RefPLC(RefTarget):
         cap = self.reply_capacity(conn, len(header), limited=fragmented)
         remaining = total - offset
         chunk = min(cap, remaining)
-        if chunk < remaining:
+        if chunk < remaining and not (fragmented and self.frag_round == "any"):   # "any": a fragment may end inside an element
             unit = es if (self.frag_round == "element" or loc.type in ATOMIC) else 4
             if chunk >= unit:
                 chunk -= chunk % unit
